@@ -19,6 +19,13 @@ NA = {
 }
 
 CHECKS = {
+    "C04": dict(
+        category="exploration",
+        text="Seeded search over operation histories on one fitted estimator against a reference model (row id -> row of the first full-batch output): sub-batches, permutations, single rows, duplicated rows, repeats, interleaved with restarts that keep only durable state (pickle round trip, clone_with_fitted_parameters) and, for classes with n_jobs, calls executed under drawn thread schedules of the baton scheduler. Every returned row is compared with the reference.",
+        design_ref="DESIGN.md §4 C04",
+        note="Trusted: rtol 1e-9 for BLAS-backed float outputs, exact for labels/leaf ids; balanced ConstraintKMeans prediction excluded as documented; methods whose full-batch reference call raises are dropped and counted.",
+        technique="deterministic simulation: generated operation/restart histories vs executable reference model, seeded thread scheduler for n_jobs calls",
+    ),
     "C07": dict(
         category="exploration",
         text="Seeded search over ConstraintKMeans scenarios (all residues n mod k, degenerate geometries, both strategies, kmeans0 on/off, tiny max_iter) with every numpy.random request of the balancing code answered by the simulator -- adversarially (degenerate uniforms, identity/reversed/rotated permutations, range extremes) or from the pinned global RNG -- so that the size guarantee is examined for the draws the code can meet and any failure replays exactly; size, label-range, finite-centre, n_iter and nearest-centre oracles on fit and on plain/balanced predictions of arbitrary batch sizes; seam-call cap as bounded liveness.",
